@@ -2,7 +2,7 @@
     conclusions say something (a bond really changes, a charge really moves, the additive branch is really taken, no
     ITS is really produced).  Intermediate values are top-level Definitions (no destructuring lets in statements). *)
 From Coq Require Import List NArith ZArith Bool Lia.
-From SK Require Import lib.Tok lib.LGraph model.C03_Model proof.C03_Proof proof.C03_Glue proof.C03_Backward.
+From SK Require Import lib.Tok lib.LGraph model.C03_Model proof.C03_Proof proof.C03_Glue proof.C03_Backward proof.C03_ExplicitH.
 Import ListNotations.
 Local Open Scope Z_scope.
 
@@ -107,3 +107,35 @@ Qed.
 Example ex_synrule_implicit : nodupb (node_ids ex_rc) = true /\
   synrule ex_rc false = Some (ex_rc, fst (its_decompose ex_rc), snd (its_decompose ex_rc)).
 Proof. split; [reflexivity|]. apply synrule_implicit. reflexivity. Qed.
+
+(** explicit-hydrogen stage: proton transfer  O-H . N  >>  O- . H-N+  written with h_pairs (pair id 1 on both atoms);
+    substrate CH3OH . NH3 *)
+Definition Oo : N := 79%N.
+Definition ex_rc_h : its :=
+  LG [(10%N, IN (at_ Oo 1 0) (at_ Oo 0 (-1)) 1 (Some [1%N])); (12%N, IN (at_ Nn 0 0) (at_ Nn 1 1) 0 (Some [1%N]))] [].
+Definition ex_m_h : mapping := [(10%N, 2%N); (12%N, 3%N)].
+Definition ex_host_h : hostg := LG [(1%N, at_ C 3 0); (2%N, at_ Oo 1 0); (3%N, at_ Nn 3 0)] [(1%N, 2%N, 2)].
+Definition ex_T_h : its := match glue ex_host_h ex_rc_h ex_m_h with Some t => t | None => LG [] [] end.
+Definition ex_T_h' : its := match explicit_h ex_T_h with Some r => fst r | None => LG [] [] end.
+Example ex_explicit_hyps :
+  wf_hostb ex_host_h = true /\ wf_rcb ex_rc_h = true /\ match_rcb ex_host_h ex_rc_h ex_m_h = true /\
+  glue ex_host_h ex_rc_h ex_m_h = Some ex_T_h /\ balancedb ex_rc_h = true /\
+  explicit_h ex_T_h = Some (ex_T_h', [(2%N, 3%N)]).
+Proof. vm_compute. repeat split; reflexivity. Qed.
+(** one new H atom (id 4), bonded (1,0) to the donor O and (0,1) to the recipient N *)
+Example ex_explicit_value :
+  node_ids ex_T_h' = [1%N; 2%N; 3%N; 4%N] /\ adj ex_T_h' 2%N 4%N = Some (2, 0, 2) /\ adj ex_T_h' 4%N 3%N = Some (0, 2, -2) /\
+  option_map (fun a => (a_hc (iG a), a_hc (iH a))) (label ex_T_h' 2%N) = Some (0, 0) /\
+  option_map (fun a => (a_hc (iG a), a_hc (iH a))) (label ex_T_h' 3%N) = Some (3, 3).
+Proof. vm_compute. repeat split; reflexivity. Qed.
+Example ex_explicitH_partial : forall e, elem_count e (fst (its_decompose ex_T_h')) = elem_count e (fst (its_decompose ex_T_h)).
+Proof.
+  destruct ex_explicit_hyps as (_ & _ & _ & _ & _ & H6). intros e.
+  refine (proj1 (proj1 (proj2 (explicit_h_accounting ex_T_h ex_T_h' _ _ H6)) e)).
+  apply nodupb_NoDup. reflexivity.
+Qed.
+Example ex_explicitH_conserve : forall e, elem_count e (fst (its_decompose ex_T_h')) = elem_count e (snd (its_decompose ex_T_h')).
+Proof.
+  destruct ex_explicit_hyps as (H1 & H2 & H3 & H4 & H5 & H6).
+  exact (proj1 (explicit_h_conserve ex_host_h ex_rc_h ex_m_h ex_T_h ex_T_h' _ H1 H2 H3 H4 H5 H6)).
+Qed.
